@@ -9,10 +9,6 @@ theorem unanswered_cons (x : Waiter) (l : List Waiter) :
     unanswered (x :: l) = if x.answer == none then (x.ticket, x.size) :: unanswered l else unanswered l := by
   unfold unanswered; rw [List.filter_cons]; split <;> simp
 
-theorem grantedBytes_cons (x : Waiter) (l : List Waiter) :
-    grantedBytes (x :: l) = (if x.answer == some true then x.size else 0) + grantedBytes l := by
-  unfold grantedBytes; rw [List.filter_cons]; split <;> simp [sumNat_cons]
-
 /-- removing an answered waiter -/
 theorem remove_answered : ∀ (ws : List Waiter) (w : Waiter), (ws.map (·.ticket)).Nodup → w ∈ ws →
     w.answer ≠ none →
@@ -75,31 +71,41 @@ theorem wake_linv {s : State} (h : LInv s) (t : Nat) : LInv (s.wake pick t) ∧ 
       intro hn; rw [hn] at this; simp at this
     obtain ⟨r1, r2, r3⟩ := remove_answered s.waiters w h.led.1.nodupW hwm hwa
     have c1 : Coupled ({ s with waiters := s.waiters.filter (·.ticket != w.ticket) } : State) := by
-      refine ⟨h.led.1.ainv, ?_, ?_, ?_, ?_, ?_⟩
+      refine ⟨h.led.1.ainv, ?_, ?_, ?_, ?_⟩
       · show pendTA s.alloc s.peer = unanswered (s.waiters.filter _)
         rw [r1]; exact h.led.1.pend
       · exact (List.filter_sublist.map _).nodup h.led.1.nodupW
       · intro x hx; exact h.led.1.fresh x (r3 x hx)
-      · intro x hx; exact h.led.1.nofail x (r3 x hx)
       · intro x hx; exact h.led.1.wsize x (r3 x hx)
-    have hnf := h.led.1.nofail w hwm
-    have htrue : w.answer = some true := by
-      cases hw : w.answer with
-      | none => exact absurd hw hwa
-      | some b => cases b with
-        | true => rfl
-        | false => exact absurd hw hnf
-    rw [htrue] at r2 ⊢
-    simp only [if_true] at r2
-    simp only [beq_self_eq_true, if_true]
-    apply buildMessage_linv hp
-    · refine ⟨c1, ?_⟩
-      show tot s.alloc s.peer = hb s.builders + heldInFlight s + w.size + grantedBytes (s.waiters.filter _)
-      have := h.led.2
-      omega
-    · exact h.binv
-    · obtain ⟨q1, q2⟩ := h.led.1.wsize w hwm
-      exact ⟨fun _ => q2, fun hw => by rw [q1] at hw; cases hw⟩
+    cases hw : w.answer with
+    | none => exact absurd hw hwa
+    | some b =>
+      cases b with
+      | true =>
+        rw [hw] at r2
+        simp only [if_true] at r2
+        simp only [beq_self_eq_true, if_true]
+        apply buildMsg_linv hp
+        · refine ⟨c1, ?_⟩
+          show tot s.alloc s.peer = hb s.builders + heldInFlight s + w.size + grantedBytes (s.waiters.filter _)
+          have := h.led.2
+          omega
+        · exact h.binv
+        · obtain ⟨q1, q2⟩ := h.led.1.wsize w hwm
+          exact ⟨fun _ => q2, fun hw => by rw [q1] at hw; cases hw⟩
+      | false =>
+        rw [hw] at r2
+        have hne : ((some false : Option Bool) == some true) = false := rfl
+        simp only [hne, Bool.false_eq_true, if_false]
+        have hne' : ((some false : Option Bool) = some true) = False := by simp
+        simp only [hne', if_false, Nat.add_zero] at r2
+        refine ⟨?_, rfl⟩
+        have l0 : Led ({ s with waiters := s.waiters.filter (·.ticket != w.ticket) } : State) (hb s.builders + heldInFlight s) := by
+          refine ⟨c1, ?_⟩
+          show tot s.alloc s.peer = hb s.builders + heldInFlight s + grantedBytes (s.waiters.filter _)
+          have := h.led.2
+          omega
+        exact ⟨l0.frame (emit_frame _ _), h.binv⟩
 
 /-- another peer uses the allocator -/
 theorem env_linv {s : State} (h : LInv s) (op : Alloc.Op) (hq : opPeer op ≠ s.peer) :
@@ -133,14 +139,32 @@ theorem env_linv {s : State} (h : LInv s) (op : Alloc.Op) (hq : opPeer op ≠ s.
   omega
 
 /-- the blocked call returns -/
-theorem ack_linv {s : State} (h : LInv s) (ok : Bool) : LInv (s.ack pick ok) ∨ (s.ack pick ok).pc = .exited := by
+theorem ack_linv {s : State} (h : LInv s) (hcn : s.closed = true → s.builders = [])
+    (hclean : s.pc = .exiting → heldGranted s = 0) (ok : Bool) : LInv (s.ack pick ok) := by
   obtain ⟨peer, maxRetries, builders, nextTopic, token, done, sender, pc, closedStreams, waiters,
     nextTicket, topics, pubClosed, alloc, log⟩ := s
   have hbi : ∀ b ∈ builders, BInv b := h.binv
   cases pc with
-  | idle => exact Or.inl h
-  | exited => exact Or.inr rfl
-  | exiting => exact Or.inr rfl
+  | idle => exact h
+  | exited => exact h
+  | exiting =>
+    have hb0 : builders = [] := hcn rfl
+    subst hb0
+    obtain ⟨c1, c2, c3⟩ := releasePeer_coupled hp h.led.1 (hclean rfl)
+    unfold State.ack
+    simp only
+    generalize hs1 : (State.allocStep pick (⟨peer, maxRetries, [], nextTopic, token, done, sender, .exiting, closedStreams, waiters,
+        nextTicket, topics, pubClosed, alloc, log⟩ : State) (.releasePeer peer)).1 = s1 at c1 c2 c3
+    have hb1 : s1.builders = [] := by subst hs1; rfl
+    have hp1 : s1.peer = peer := by subst hs1; rfl
+    have l1 : Led s1 0 := ⟨c1, by rw [hp1, c3]; exact c2⟩
+    have l2 := l1.frame (emit_frame s1 [Event.exitCallback])
+    refine ⟨?_, ?_⟩
+    · show Led _ (hb s1.builders + 0)
+      rw [hb1]
+      exact ⟨⟨l2.1.ainv, l2.1.pend, l2.1.nodupW, l2.1.fresh, l2.1.wsize⟩, l2.2⟩
+    · show ∀ b ∈ s1.builders, BInv b
+      rw [hb1]; intro b hb'; cases hb'
   | opening m r =>
     have hl : Led (⟨peer, maxRetries, builders, nextTopic, token, done, sender, .opening m r, closedStreams, waiters,
         nextTicket, topics, pubClosed, alloc, log⟩ : State) (hb builders + m.size) := h.led
@@ -149,24 +173,23 @@ theorem ack_linv {s : State} (h : LInv s) (ok : Bool) : LInv (s.ack pick ok) ∨
       unfold State.ack
       simp only
       split
-      · exact Or.inl (attempt_linv hp 0 (s := ⟨peer, maxRetries, builders, nextTopic, token, done, true, .opening m none,
+      · exact (attempt_linv hp 0 (s := ⟨peer, maxRetries, builders, nextTopic, token, done, true, .opening m none,
           closedStreams, waiters, nextTicket, topics, pubClosed, alloc, log⟩)
-          ⟨⟨hl.1.ainv, hl.1.pend, hl.1.nodupW, hl.1.fresh, hl.1.nofail, hl.1.wsize⟩, hl.2⟩ hbi)
+          ⟨⟨hl.1.ainv, hl.1.pend, hl.1.nodupW, hl.1.fresh, hl.1.wsize⟩, hl.2⟩ hbi)
       · obtain ⟨l, b, _⟩ := publishError_led hp hl hbi
         generalize State.publishError pick _ m = s1 at l b
         obtain ⟨f1, f2, f3⟩ := finish_spec ({ s1 with done := true }) m
-        left
         refine ⟨?_, by rw [f2]; exact b⟩
         rw [f2, heldInFlight_idle f1, Nat.add_zero]
-        exact f3 _ ⟨⟨l.1.ainv, l.1.pend, l.1.nodupW, l.1.fresh, l.1.nofail, l.1.wsize⟩, l.2⟩
+        exact f3 _ ⟨⟨l.1.ainv, l.1.pend, l.1.nodupW, l.1.fresh, l.1.wsize⟩, l.2⟩
     | some i =>
       unfold State.ack
       simp only
       split
-      · exact Or.inl (attempt_linv hp (i + 1) (s := ⟨peer, maxRetries, builders, nextTopic, token, done, true, .opening m (some i),
+      · exact (attempt_linv hp (i + 1) (s := ⟨peer, maxRetries, builders, nextTopic, token, done, true, .opening m (some i),
           closedStreams, waiters, nextTicket, topics, pubClosed, alloc, log⟩)
-          ⟨⟨hl.1.ainv, hl.1.pend, hl.1.nodupW, hl.1.fresh, hl.1.nofail, hl.1.wsize⟩, hl.2⟩ hbi)
-      · exact Or.inl (error_finish_linv hp hl hbi)
+          ⟨⟨hl.1.ainv, hl.1.pend, hl.1.nodupW, hl.1.fresh, hl.1.wsize⟩, hl.2⟩ hbi)
+      · exact (error_finish_linv hp hl hbi)
   | sending m i =>
     have hl : Led (⟨peer, maxRetries, builders, nextTopic, token, done, sender, .sending m i, closedStreams, waiters,
         nextTicket, topics, pubClosed, alloc, log⟩ : State) (hb builders + m.size) := h.led
@@ -176,22 +199,145 @@ theorem ack_linv {s : State} (h : LInv s) (ok : Bool) : LInv (s.ack pick ok) ∨
     · obtain ⟨l, q⟩ := publishSent_led hp hl
       generalize State.publishSent pick _ m = s1 at l q
       obtain ⟨f1, f2, f3⟩ := finish_spec s1 m
-      left
       refine ⟨?_, by rw [f2, q.builders]; exact hbi⟩
       rw [f2, heldInFlight_idle f1, Nat.add_zero, q.builders]
       exact f3 _ l
-    · left
-      exact ⟨⟨⟨hl.1.ainv, hl.1.pend, hl.1.nodupW, hl.1.fresh, hl.1.nofail, hl.1.wsize⟩, hl.2⟩, hbi⟩
+    · exact ⟨⟨⟨hl.1.ainv, hl.1.pend, hl.1.nodupW, hl.1.fresh, hl.1.wsize⟩, hl.2⟩, hbi⟩
   | resetting m i =>
     have hl : Led (⟨peer, maxRetries, builders, nextTopic, token, done, sender, .resetting m i, closedStreams, waiters,
         nextTicket, topics, pubClosed, alloc, log⟩ : State) (hb builders + m.size) := h.led
     unfold State.ack
     simp only
     split
-    · exact Or.inl (error_finish_linv hp hl hbi)
-    · left
-      exact ⟨⟨⟨hl.1.ainv, hl.1.pend, hl.1.nodupW, hl.1.fresh, hl.1.nofail, hl.1.wsize⟩, hl.2⟩, hbi⟩
+    · exact (error_finish_linv hp hl hbi)
+    · exact ⟨⟨⟨hl.1.ainv, hl.1.pend, hl.1.nodupW, hl.1.fresh, hl.1.wsize⟩, hl.2⟩, hbi⟩
 
 end ops
+
+/-! ## a closed queue has no queued builder -/
+
+/-- `mq.closed → len(mq.builders) == 0` -/
+def CN (s : State) : Prop := s.closed = true → s.builders = []
+
+theorem attempt_pc (pick : Pick) (s : State) (m : InFlight) (i : Nat) :
+    (s.attempt pick m i).pc = .sending m i ∨ (s.attempt pick m i).pc = .idle := by
+  unfold State.attempt
+  split
+  · exact Or.inl rfl
+  · exact Or.inr rfl
+
+theorem attempt_open (pick : Pick) (s : State) (m : InFlight) (i : Nat) : (s.attempt pick m i).closed = false := by
+  unfold State.closed
+  rcases attempt_pc pick s m i with h | h <;> rw [h] <;> rfl
+
+theorem buildWith_cn (pick : Pick) {s : State} (h : CN s) (tx : Tx) (size : Nat) : CN (buildWith pick s tx size) := by
+  intro hc
+  have hpc : (buildWith pick s tx size).pc = s.pc := by
+    unfold buildWith
+    simp only
+    split
+    · exact buildMsg_pc _ _ _ _ _
+    · split
+      · rw [buildMsg_pc]; rfl
+      · rfl
+  have hc0 : s.closed = true := by rw [← closed_pc hpc]; exact hc
+  have hb0 := h hc0
+  unfold buildWith
+  simp only
+  split
+  · exact buildMsg_closed_nil _ _ _ _ _ hc0 hb0
+  · split
+    · exact buildMsg_closed_nil _ _ _ _ _ hc0 hb0
+    · exact hb0
+
+theorem step_cn (pick : Pick) {s : State} (h : CN s) (a : Act) : CN (step pick s a) := by
+  cases a with
+  | build tx =>
+    show CN (s.build pick tx)
+    rw [build_eq]; split
+    · exact h
+    · exact buildWith_cn pick h tx _
+  | wake t =>
+    show CN (s.wake pick t)
+    unfold State.wake
+    split
+    · exact h
+    · simp only
+      split
+      · intro hc
+        have hc0 : s.closed = true := by
+          rw [closed_pc (buildMsg_pc _ _ _ _ _)] at hc; exact hc
+        exact buildMsg_closed_nil _ _ _ _ _ hc0 (h hc0)
+      · exact h
+  | run pw =>
+    show CN (s.run pick pw)
+    obtain ⟨peer, maxRetries, builders, nextTopic, token, done, sender, pc, closedStreams, waiters,
+      nextTicket, topics, pubClosed, alloc, log⟩ := s
+    cases pc with
+    | idle =>
+      unfold State.run
+      simp only
+      split
+      · cases he : (⟨peer, maxRetries, builders, nextTopic, false, done, sender, .idle, closedStreams, waiters,
+            nextTicket, topics, pubClosed, alloc, log⟩ : State).extract with
+        | mk s' om =>
+          cases om with
+          | none =>
+            obtain ⟨_, _, _, a4, _⟩ := (extract_shape _).1 s' he
+            intro hc
+            have : s'.closed = false := by unfold State.closed; rw [a4]; rfl
+            rw [this] at hc; cases hc
+          | some m =>
+            simp only
+            split
+            · intro hc; rw [attempt_open] at hc; cases hc
+            · intro hc; cases hc
+      · split
+        · intro _
+          have := drain_builders_nil pick builders.length (⟨peer, maxRetries, builders, nextTopic, token, done, sender, .idle,
+            closedStreams, waiters, nextTicket, topics, pubClosed, alloc, log⟩ : State) (Nat.le_refl _)
+          generalize State.drain pick builders.length _ = s1 at this
+          show (if s1.sender = true then s1.emit [Event.senderClosed] else s1).builders = []
+          split
+          · exact this
+          · exact this
+        · exact h
+    | opening m r => exact h
+    | sending m i => exact h
+    | resetting m i => exact h
+    | exiting => exact h
+    | exited => exact h
+  | ack ok =>
+    show CN (s.ack pick ok)
+    obtain ⟨peer, maxRetries, builders, nextTopic, token, done, sender, pc, closedStreams, waiters,
+      nextTicket, topics, pubClosed, alloc, log⟩ := s
+    cases pc with
+    | idle => exact h
+    | exited => exact h
+    | exiting => intro _; exact h rfl
+    | opening m r =>
+      cases r with
+      | none =>
+        unfold State.ack; simp only
+        split
+        · intro hc; rw [attempt_open] at hc; cases hc
+        · intro hc; cases hc
+      | some i =>
+        unfold State.ack; simp only
+        split
+        · intro hc; rw [attempt_open] at hc; cases hc
+        · intro hc; cases hc
+    | sending m i =>
+      unfold State.ack; simp only
+      split
+      · intro hc; cases hc
+      · intro hc; cases hc
+    | resetting m i =>
+      unfold State.ack; simp only
+      split
+      · intro hc; cases hc
+      · intro hc; cases hc
+  | shutdown => exact h
+  | env op => exact h
 
 end GS.MQ
